@@ -5,7 +5,7 @@ from ..driver import ScenarioEnd
 from .. import progs as P
 from .. import refsld as S
 from .. import refunify as R
-from ..progs import V, A, C, L, I, gc, gb, AND, OR, NOT, U, F, X, Y, Z
+from ..progs import V, A, C, L, I, gc, gb, AND, OR, NOT, U, F, X, Y, Z, W
 from . import prog_common as PC
 from .c23 import fmt_answer, TIMEOUT_MSG
 
@@ -31,6 +31,7 @@ KB = [
     (C('t4', X), AND(gc('p', X), NOT(gc('q', X)))),
     (C('t5', X), AND(gc('p', X), gb('!'))), (C('t5', A('z')), None),
     (C('t6', X), AND(gc('n', Y), U(X, F('add', Y, I(1))))),
+    (C('t7', X), AND(gc('h', X), gc('eq', Y, I(7)), gc('pr', Y, Z, W))),
 ]
 QUERIES = [C('t1', X), C('t3', X), C('t4', X), C('t6', X)]
 HQ = [C('t2', X), C('t3', X), C('t5', X), C('t1', A('b'))]
